@@ -64,6 +64,14 @@ Theorem C05_holds_agree : forall m0 m1 m2 m3 hi lo s n,
 Proof. exact holds_agree_model. Qed.
 Print Assumptions C05_holds_agree.
 
+(* the suffix-recursive window scan the theorems above are about computes, for every data and position, what the
+   source's two index loops compute when each test and update is the regenerated kernel
+   (frb_outer, frb_inner, frb_better, frb_new_len, frb_max_len, frb_hist, frb_i0, frb_offset) *)
+Theorem C05_scan_is_source_loops : forall dat pos, 0 <= pos <= zlen dat ->
+  find_repeatable_block dat pos = find_repeatable_block_ref dat pos.
+Proof. exact find_repeatable_block_ref_eq. Qed.
+Print Assumptions C05_scan_is_source_loops.
+
 (* the `clean` hypothesis cannot be dropped: by design of the compatibility suffix a text that ends with
    it is not carried (domain limit of the property, not a defect) *)
 Theorem C05_suffix_not_carried : exists text, Forall byte text /\ clean text = false /\
